@@ -347,7 +347,9 @@ def run(ctx):
     stats = batches[-1]["stats"]
     tie.update({"histories_executed_on_real_handler": n_cases, "corpus": len(corpus), "generated": n, "events": n_events,
                 "requests_deletes_advances_judged_by_the_gap_rule_oracle": n_req, "histories_failing_the_oracle": n_fail,
-                "model_mismatches_in_projection": n_mis, "histories_with_unjudged_timer_tie": n_tie, "crashes_or_hangs": len(crashes),
+                "model_mismatches_in_projection": n_mis, "histories_with_timer_tie": n_tie,
+                "model_mismatches_ignored_because_of_a_timer_tie": sum(1 for bb in batches for r in bb["results"].values() if r.get("tie_ignored")),
+                "crashes_or_hangs": len(crashes),
                 "projection": "C20 (statuses, ConnEnd, session table; of the lock server: flags, listing, file, lock table)",
                 "oracle": "extracted from Coq: c20_step (gap rule, 401, ConnEnd once and prompt, table = live sessions), c20_inert_failures", "generator_distribution": stats})
     tie2.update({"scenarios_executed_on_real_handler": n_races, "fixed": len([1 for r in rr["results"] if "rand" not in r.get("id", "")]),
